@@ -21,6 +21,7 @@ import (
 
 	"github.com/zeromicro/go-zero/core/conf"
 	"github.com/zeromicro/go-zero/core/logx"
+	"github.com/zeromicro/go-zero/rest/internal/response"
 )
 
 func verifC04Server(c SeqCase, work http.HandlerFunc, out *SeqOut) (http.Handler, func(int) string, error) {
@@ -80,6 +81,12 @@ func TestVerifC04(t *testing.T) {
 		t.Skip("no VERIF_IN")
 	}
 	logx.Disable()
+	// what BreakerHandler, LogHandler, PrometheusHandler and TraceHandler do in front of the
+	// timeout handler: wrap the writer and read Code when the inner chain has returned
+	wrapOuter = func(w http.ResponseWriter) (http.ResponseWriter, func() int) {
+		cw := response.NewWithCodeResponseWriter(w)
+		return cw, func() int { return cw.Code }
+	}
 	var cases []SeqCase
 	if err := json.Unmarshal(data, &cases); err != nil {
 		t.Fatal(err)
